@@ -147,16 +147,13 @@ func suiteC01(s *Suite, rng *Rng, tier string) {
 	if tier == "thorough" {
 		rounds = 150
 	}
-	keys := []*KeyPair{makeKey(128, 0, 7, rng, false), makeKey(256, 0, 7, rng, false), makeKey(1024, 0, 7, rng, false)}
-	if tier == "thorough" {
-		keys = append(keys, makeKey(2048, 0, 7, rng, false))
-	}
+	keys := []*KeyPair{makeKey(128, 0, 7, rng, false), makeKey(256, 0, 7, rng, false), makeKey(1024, 0, 7, rng, false), makeKey(2048, 0, 7, rng, false)}
 	rkeys := []*KeyPair{makeKey(256, 0, 7, rng, true), makeKey(1024, 0, 7, rng, true)}
 	smallLeft := 2
 	for round := 0; round < rounds; round++ {
 		kp := keys[round%len(keys)]
-		if kp.Bits >= 1024 && round%2 == 1 && tier != "thorough" {
-			kp = keys[1]
+		if kp.Bits >= 1024 && round%2 == 1 && tier != "thorough" && round != 3 {
+			kp = keys[1] // (quick tier: the 2048-bit key, whose size parameters differ from the 1024-bit ones, is used once)
 		}
 		// every third round the credential carries a revocation witness and the proof a non-revocation part (the size and
 		// range checks on the responses must not depend on that)
